@@ -466,6 +466,9 @@ def run(run):
                         khist["K_full_sign"] += 1; run.known(known["full-sign"]["what"]); continue
                     if kind == "exact" and i in cls["K_inner_sign"] and "inner-sign" in known:
                         khist["K_inner_sign"] += 1; run.known(known["inner-sign"]["what"]); continue
+                    # over-approximation failure with a sign behind a concatenation (guard of C15_intervals_overapprox_concat_partial)
+                    if kind == "over" and i in cls["K_inner_sign"] and "inner-sign-zero" in known:
+                        khist["K_inner_sign_over"] = khist.get("K_inner_sign_over", 0) + 1; run.known(known["inner-sign-zero"]["what"]); continue
                     if i in cls["K_signed_zero"] and i not in cls["documented_shapeb"] and "signed-zero" in known:
                         khist["K_signed_zero"] += 1; run.known(known["signed-zero"]["what"]); continue
                     if i not in cls["documented_shapeb"] and kind == "exact":
